@@ -68,6 +68,14 @@ LAYERED = [  # (indices, radii) physical, medium 1.33, wl 0.66
     ([1.45 + 0.05j, 1.59 + 0.1j, 1.4 + 0.02j], [0.3, 0.8, 1.3]),
 ]
 LAYERED_QUICK_EXTRA = (10, 11)
+# (indices, radii, vacuum wavelength, medium index): (index of a layer) x
+# (size parameter of one of its boundaries) is a multiple of pi, as exactly
+# as floating point allows -- round numbers hit this
+LAYERED_SPECIAL = [
+    ([2.0, 1.5], [0.25, 0.5], 1.5, 1.0),      # m_2 k r_2 = pi
+    ([2.0, 1.5], [0.5, 0.8], 1.5, 1.0),       # m_2 k r_1 = pi
+    ([1.5, 1.25], [0.3, 0.6], 1.5, 1.0),      # m_2 k r_2 = pi
+]
 MS_POLS = [(1, 0), (0, 1), (0.6, -0.8), (1, 0), (0, 1), (0.6, -0.8), (1, 1),
            (0, 1)]
 MS_ONE = {"quick": [(1.2, 3.0), (1.2 + 0.01j, 1.0)],
@@ -98,6 +106,12 @@ def cases(tier, seed):
         out.append({"id": "layered#%d" % i, "kind": "layered", "i": i})
         k = 2 * math.pi * 1.33 / 0.66
         reqs.append(mie_ref.req_layered([n / 1.33 for n in ns],
+                                        [k * r for r in rs]))
+    for i, (ns, rs, wl, nmed) in enumerate(LAYERED_SPECIAL):
+        out.append({"id": "layered-special#%d" % i, "kind": "layered",
+                    "special": i})
+        k = 2 * math.pi * nmed / wl
+        reqs.append(mie_ref.req_layered([n / nmed for n in ns],
                                         [k * r for r in rs]))
     for j, (m, x) in enumerate(MS_ONE[tier]):
         # the polarization varies from case to case (index j+1: the first
@@ -348,8 +362,11 @@ def _run_sphere(case, ck):
 
 def _run_layered(case, ck):
     from holopy.scattering import Sphere, Mie, calc_cross_sections
-    ns, rs = LAYERED[case["i"]]
-    nmed, wl = 1.33, 0.66
+    if "special" in case:
+        ns, rs, wl, nmed = LAYERED_SPECIAL[case["special"]]
+    else:
+        ns, rs = LAYERED[case["i"]]
+        nmed, wl = 1.33, 0.66
     k = 2 * math.pi * nmed / wl
     a, b = mie_ref.coeffs_layered([n / nmed for n in ns], [k * r for r in rs])
     real_index = all(complex(n).imag == 0 for n in ns)
